@@ -126,11 +126,30 @@ def build(mk, name, tag, variant, n=3, m=3, t=2, flavour=None):
     return o
 
 
+def _valid_eq(c, d):
+    """the two cells are equal on every input of the current path (solver validity under the path condition);
+    'unknown' counts as different, so it is reported rather than passed"""
+    import z3
+    cx = sym.ctx()
+    if cx is None or getattr(cx, "pc", None) is None:
+        return False
+    try:
+        e = (c == d)
+        e = e.e if isinstance(e, SV) else e
+        if isinstance(e, bool):
+            return e
+        return str(cx._check(z3.Not(e), timeout=5000)) == "unsat"
+    except Exception:
+        return False
+
+
 def _is(c, d):
     if isinstance(c, SV) and isinstance(d, SV):
-        return c.e.eq(d.e)
+        return c.e.eq(d.e) or _valid_eq(c, d)
     if isinstance(c, SV) or isinstance(d, SV):
-        return False
+        if type(c) in (bytes, str) or type(d) in (bytes, str) or c is None or d is None:
+            return False
+        return _valid_eq(c, d)
     if type(c) in (bytes, str) or type(d) in (bytes, str):
         return type(c) is type(d) and c == d
     try:
